@@ -340,7 +340,23 @@ def r03_6(ctx) -> None:
             bad = misguarded_member_stores(eng, fn)
             ctx.check(not bad, "R03.6", fn, bad[0][0] if bad else fn.node, f"{fn.short} :: optional members", f"JWS JSON writer: {bad[0][1] if bad else ''}", "if member.header: rv['header'] = member.header",
                       construct=f"optional member guards in {fn.short}")
-    ctx.count("R03.6", n, 3, "functions writing members of the JSON signature object")
+    # what is signed and what is emitted are decided by one and the same predicate on the protected header
+    for mod in ("rfc7515.json", "rfc7797.json"):
+        for fn in P.mod(mod).functions:
+            if not any(s_.attr == "sign" for s_ in eng.cg.calls_in(fn)):
+                continue
+            preds = {}
+            for t in cfg_of(fn).nodes:
+                if t.kind != "test" or t.ast is None:
+                    continue
+                subj = [x for x in ast.walk(t.ast) if isinstance(x, ast.Attribute) and x.attr == "protected"]
+                if subj:
+                    preds.setdefault(norm(t.ast).replace(norm(subj[0]), "$.protected"), []).append(t)
+            n += 1
+            ctx.check(len(preds) <= 1, "R03.6", fn, fn.node, f"{fn.short} :: protected predicate", f"the protected header takes part in the signing input and in the output under different "
+                      f"predicates {sorted(preds)}: for a value on which they differ (e.g. an empty dict) the emitted object does not verify", "one predicate for both",
+                      construct=f"protected predicate mirror in {fn.short}")
+    ctx.count("R03.6", n, 4, "functions writing members of the JSON signature object")
 
 
 def run(ctx) -> None:
